@@ -75,6 +75,13 @@ CHECKS = {
              "schemas give equal verdicts on a symbolic probe (discrimination in contrapositive form), and "
              "schema == value iff the value validates.",
         design="4/C15"),
+    "C07": dict(
+        text="Inductive step decided by bounded symbolic execution: from a pool of schemas with symbolic parameters one "
+             "public operation with symbolic arguments runs; the solver must confirm on all paths that the deep "
+             "fingerprint (structure + identity of leaves) of every pooled schema, of every argument and of d42's "
+             "visitor singletons is unchanged; caller-owned containers are mutated afterwards by a solver-chosen "
+             "mutation and the schema built from them must not change.",
+        design="4/C07"),
     "C16": dict(
         text="Bounded symbolic execution of all four visitors on schema trees in which a solver-chosen subset of the "
              "first four nodes is replaced by a forwarding CustomSchema: errors (kind, path, object, fields), printed "
